@@ -6,6 +6,21 @@ Inductive path_form :=
 | AsPassedAbsolute   (* pinned tree: file_line_patterns(filename, ...) -- only the path as passed (target-prefixed) *)
 | Both.              (* fix 18b42d9: the path as passed, then the target-relative path *)
 
+(** context.find_and_fix_paths: what is tested for emptiness before the default excludes are used. *)
+Inductive exclude_sentinel_form :=
+| RawOrNone          (* `self.path_exclude or None`: a list holding only `path:line` patterns switches the defaults off *)
+| FileLevelOrNone.   (* the patterns without `:` `or None`: the defaults apply unless a FILE-level exclude is given *)
+
+(** project_analysis/file_parsers/base_parser.BaseParser.find_file_locations: which manifests are candidates. *)
+Inductive manifest_loc_form :=
+| AllNamed           (* list(rglob(<manifest name>)): a symlinked manifest (possibly pointing outside the target) is a candidate *)
+| SkipSymlinks.      (* ... if not path.is_symlink() *)
+
+(** context.process_dependencies: are the file-level exclude patterns applied to the manifests before one is written? *)
+Inductive manifest_excl_form :=
+| NoManifestExclusion     (* every parsed package store may be written *)
+| FileLevelExcludes.      (* a store whose file matches a file-level exclude (the user's, else the defaults) is skipped *)
+
 (** base_visitor.UtilsMixin.filter_by_path_includes_or_excludes (and its copy in remove_unused_imports.py):
     how the exclusion and inclusion line lists combine. *)
 Inductive lf_rule :=
